@@ -5,6 +5,7 @@
 package main
 
 import (
+	"bytes"
 	"encoding/hex"
 	"math"
 	"math/big"
@@ -322,7 +323,18 @@ func (f *filler) fill(v reflect.Value, depth int) {
 		// the JSON form of an address is only defined for 20 bytes or none
 		b := f.bytes(20)
 		if len(b) != 0 && len(b) != 20 {
+			one := len(b) == 1
 			b = f.r.Bytes(20)
+			if one { // boundary addresses: all-zero (the burn address is NOT the absent address), all-0xff, 00…01
+				switch b[0] % 3 {
+				case 0:
+					b = make([]byte, 20)
+				case 1:
+					b = bytes.Repeat([]byte{0xff}, 20)
+				default:
+					b = append(make([]byte, 19), 1)
+				}
+			}
 		}
 		if b == nil {
 			v.Set(reflect.Zero(t))
